@@ -51,6 +51,25 @@ static int hexval(int c)
     return -1;
 }
 
+/* VERIF_ALIGN=1: decoded inputs are placed at offsets 0..15 from the allocator's alignment (the terminator still ends the block,
+ * so the red zone after it stays adjacent); hexfree() releases them. */
+static size_t g_align_ctr = 0;
+static int align_mode(void)
+{
+    static int m = -1;
+    if (m < 0) m = getenv("VERIF_ALIGN") ? 1 : 0;
+    return m;
+}
+#define HEXDUP_SLOTS 8
+static char *hexdup_ret[HEXDUP_SLOTS], *hexdup_base[HEXDUP_SLOTS];
+static void hexfree(char *p)
+{
+    int i;
+    for (i = 0; i < HEXDUP_SLOTS; i++)
+        if (p && hexdup_ret[i] == p) { free(hexdup_base[i]); hexdup_ret[i] = NULL; return; }
+    free(p);
+}
+
 /* Decode hex into an exactly sized malloc block (len+1, NUL terminated) so that sanitizer
  * red zones sit directly before the first byte and after the terminator.  "-" is the empty string. */
 static char *hexdup(const char *hex, size_t *outlen)
@@ -69,6 +88,24 @@ static char *hexdup(const char *hex, size_t *outlen)
     p[n] = 0;
     *outlen = n;
     return p;
+}
+
+/* Input strings handed to the library: like hexdup, but under VERIF_ALIGN=1 at offsets 0..15 from the allocator's alignment.
+ * Release with hexfree(). */
+static char *hexdup_in(const char *hex, size_t *outlen)
+{
+    char *p = hexdup(hex, outlen), *base;
+    size_t o;
+    int k;
+    if (!align_mode()) return p;
+    o = (g_align_ctr++ * 7 + 3) % 16;
+    base = malloc(o + *outlen + 1);
+    memcpy(base + o, p, *outlen + 1);
+    free(p);
+    for (k = 0; k < HEXDUP_SLOTS; k++) if (!hexdup_ret[k]) break;
+    if (k == HEXDUP_SLOTS) k = 0;
+    hexdup_ret[k] = base + o; hexdup_base[k] = base;
+    return base + o;
 }
 
 static char *memdupz(const char *s, size_t n)
